@@ -103,9 +103,7 @@ def edit_history(model, op_class, oracle):
         op = op_class()
         try:
             op.execute(fm).get_result()
-            edit(fm)
-            if bd.observe(fm) != em:
-                raise AssertionError('in-place edit did not give the expected model: %s' % what)
+            cm.checked_edit(fm, edit, model, em, what)
             res = op.execute(fm).get_result()
         except AssertionError:
             raise
